@@ -687,7 +687,74 @@ func runC16(cfg Config) {
 			}
 		}
 	}
+	c16LargeChunks(cfg, rep, rng)
 	rep.Write(cfg.Out)
+}
+
+// c16LargeChunks: chunk sizes have no upper limit (`make -m 16384:32768:65536` gives chunks of tens of MiB): verify
+// must not report, and with repair not remove, a valid chunk because it is large; a small damaged chunk next to it is
+// still found.  Both storage formats.
+func c16LargeChunks(cfg Config, rep *Report, rng *rand.Rand) {
+	setDigest("sha512")
+	sizes := []int{17 << 20, 70 << 20}
+	if cfg.Tier == "thorough" {
+		sizes = append(sizes, 9<<20, 33<<20, 300<<20)
+	}
+	for i, size := range sizes {
+		unc := i%2 == 1
+		dir := filepath.Join(cfg.Work, fmt.Sprintf("big16-%d", i))
+		os.RemoveAll(dir)
+		os.MkdirAll(dir, 0755)
+		st, err := desync.NewLocalStore(dir, desync.StoreOptions{Uncompressed: unc})
+		if err != nil {
+			continue
+		}
+		// half pattern, half random: compresses, but not to nothing
+		data := make([]byte, size)
+		rng.Read(data[:size/4])
+		for k := size / 4; k < size; k++ {
+			data[k] = byte(k % 251)
+		}
+		big := desync.NewChunk(data)
+		small := desync.NewChunk(randBytes(rng, 500))
+		caseLine := fmt.Sprintf("verify.large size=%d uncompressed=%v", size, unc)
+		rep.Count(caseLine, true, "verify-large")
+		if err := st.StoreChunk(big); err != nil {
+			rep.Disagree(Disagreement{Kind: "monitor", Case: caseLine, What: "a large chunk cannot be stored: " + err.Error()})
+			continue
+		}
+		st.StoreChunk(small)
+		// damage the small one
+		smallID, bigID := small.ID(), big.ID()
+		sid := smallID.String()
+		ext := ".cacnk"
+		if unc {
+			ext = ""
+		}
+		os.WriteFile(filepath.Join(dir, sid[:4], sid+ext), []byte("garbage, not a chunk"), 0644)
+		var out bytes.Buffer
+		verr := st.Verify(context.Background(), 2, true, &out)
+		if verr != nil {
+			rep.Disagree(Disagreement{Kind: "monitor", Case: caseLine, What: "verify failed on a store with a large chunk: " + verr.Error()})
+		}
+		if strings.Contains(out.String(), bigID.String()) {
+			rep.Disagree(Disagreement{Kind: "monitor", Case: caseLine, What: "verify reports a valid chunk as invalid because it is large: " + clip(out.String(), 200)})
+		}
+		if ok, _ := st.HasChunk(big.ID()); !ok {
+			rep.Disagree(Disagreement{Kind: "monitor", Case: caseLine, What: "verify with repair removed a valid large chunk"})
+		} else if c, err := st.GetChunk(big.ID()); err != nil {
+			rep.Disagree(Disagreement{Kind: "monitor", Case: caseLine, What: "a valid large chunk cannot be read back from the store it was written to: " + err.Error()})
+		} else if b, _ := c.Data(); !bytes.Equal(b, data) {
+			rep.Disagree(Disagreement{Kind: "monitor", Case: caseLine, What: "a large chunk read back differs from what was stored"})
+		}
+		if !strings.Contains(out.String(), sid) {
+			rep.Disagree(Disagreement{Kind: "monitor", Case: caseLine, What: "verify did not report the damaged chunk next to a large one"})
+		}
+		if ok, _ := st.HasChunk(small.ID()); ok {
+			rep.Disagree(Disagreement{Kind: "monitor", Case: caseLine, What: "verify with repair left the damaged chunk in place"})
+		}
+		os.RemoveAll(dir)
+	}
 }
 
 // ---------------------------------------------------------------------------------------
